@@ -1,7 +1,7 @@
 //@ inject: src/dap/transport.rs
 //@ anchor: src/dap/transport.rs :: impl<W: Write + Send, R: Read + Send> DapTransport for Transport<W, R> / fn read_message
 //@ fragment: HDR :: src/dap/transport.rs :: impl<W: Write + Send, R: Read + Send> DapTransport for Transport<W, R> / fn read_message :: `^if line.is_empty() { break; }` .. `^} let len = content_length`
-//@ harness: name=c08_dap_header prop=C08 unit=C08.dap_header mode=bounded bound="lines made of 13..15 printable ASCII bytes followed by one two-byte UTF-8 character, and `Content-Length:` followed by two ASCII bytes" fn="Transport::read_message (header-line statement)" timeout=1200
+//@ harness: name=c08_dap_header prop=C08 unit=C08.dap_header mode=bounded bound="lines made of 13..15 printable ASCII bytes followed by one two-byte UTF-8 character" fn="Transport::read_message (header-line statement)" timeout=1200
 //@ assume: BufRead::read_line delivers valid UTF-8 (it returns an error otherwise); the `?` conversion into anyhow::Error is replaced by returning the ParseIntError itself
 //@ notcovered: the body allocation `vec![0u8; len]` for a huge Content-Length (allocation failure is invisible to both tools), serde_json decoding, framing over several reads
 //
@@ -42,14 +42,4 @@ fn c08_dap_header() {
     check_multibyte_at(13);
     check_multibyte_at(14);
     check_multibyte_at(15);
-    // the field itself with a short symbolic value
-    let v: [u8; 2] = kani::any();
-    let mut buf = *b"Content-Length:xx";
-    buf[15] = v[0];
-    buf[16] = v[1];
-    kani::assume(v[0] < 0x80 && v[1] < 0x80);
-    let s = unsafe { core::str::from_utf8_unchecked(&buf[..]) };
-    let r = header_line(s);
-    kani::cover!(matches!(r, Ok(Some(_))), "C08.dap_header.cover a length is parsed");
-    core::mem::forget(r);
 }
